@@ -155,7 +155,11 @@ def gen_huge(rng):
     n = int(rng.integers(66000, 90001))
     x = np.cumsum(rng.uniform(0.5, 1.5, n)) + float(rng.normal(0, 100))
     k = int(rng.integers(66000, 70000)) if rng.integers(0, 2) else int(rng.integers(20, 200))
-    picks = np.sort(rng.integers(0, n, k))
+    picks = rng.integers(0, n, k)
+    # always some questions right at round element numbers (inside the gaps before / after elements 2**15, 2**16, 50 000)
+    edges = np.array([2 ** 16 - 1, 2 ** 16, 2 ** 16 + 1, 2 ** 15 - 1, 2 ** 15, 49999, 50000, 60000])
+    picks[:len(edges) * 2] = np.repeat(edges, 2)
+    picks = np.sort(picks)
     qs = x[picks] + rng.choice([0.0, 0.2, -0.2, 0.45], k)
     qs[0], qs[-1] = min(qs[0], x[0] - 1.0), max(qs[-1], x[-1] + 1.0)
     return x, np.sort(qs)
